@@ -104,6 +104,31 @@ prop('C21',
      level_text='One-step bounded model checking of the real per-opcode handlers from an arbitrary register state against an independently written wide-arithmetic specification.',
      level_note='Trusted: Kani/CBMC/cadical, split_registers model (checked natively).')
 
+prop('C25',
+     builds=[dict(crate='vm', filters=['c25_'])],
+     default=dict(mem=6, timeout={'quick': 600, 'thorough': 1800}),
+     min_harnesses={'quick': 12, 'thorough': 12},
+     functions_encoded=['<op::{JI,JMP,JNE,JNEI,JNZI,JMPF,JMPB,JNZF,JNZB,JNEF,JNEB,JAL} as Execute>::execute', 'interpreter::flow::JumpArgs::jump',
+                        'Interpreter::jump', 'interpreter::internal::{inc_pc, write_user_register}', 'gas::gas_charge'],
+     bounds=['all register ids and values, all immediates, symbolic gas schedule; target computed in 128-bit arithmetic on the specification side'],
+     assumptions=[VM_STUBS_NOTE, 'pre-state: $cgas <= $ggas, $pc < VM_MAX_RAM', 'JAL with link register == target register is left unspecified (assumed away)'],
+     out_of_claim=['fetch_instruction executable-region check (needs symbolic memory; planned with C24)', 'every non-jump handler asserts pc+4 in its own property harness'],
+     level_text='One-step bounded model checking of every jump handler from an arbitrary register state against the wide-arithmetic target formula.',
+     level_note='Trusted: Kani/CBMC/cadical, split_registers model.')
+
+prop('C26',
+     builds=[dict(crate='vm', filters=['c26_'])],
+     default=dict(mem=6, timeout={'quick': 600, 'thorough': 3600}),
+     min_harnesses={'quick': 4, 'thorough': 4},
+     functions_encoded=['interpreter::gas::{gas_charge, dependent_gas_charge, dependent_gas_charge_without_base}', 'Interpreter::{gas_charge, dependent_gas_charge}',
+                        'fuel_tx::DependentCost::{resolve, resolve_without_base, base}',
+                        'per-instruction schedule: every handler harness of C21/C25 runs with a fully symbolic gas table and asserts the charged entry'],
+     bounds=['all u64 values of cgas<=ggas, cost, units, base, per-unit factors', 'LightOperation quotient specified with the same `/` operator (operand order and combination decided; the divider circuit itself is trusted)'],
+     assumptions=[VM_STUBS_NOTE, 'units_per_gas >= 1 (documented contract)'],
+     out_of_claim=['run_program gas_used accounting and call/return gas forwarding (C28/C34 harnesses, not yet built)', 'composition over whole programs (induction argument)'],
+     level_text='Bounded model checking of the gas kernel at full 64-bit width; per-instruction charges are asserted inside the instruction-step harnesses of C21/C25 with a symbolic schedule.',
+     level_note='Trusted: Kani/CBMC/cadical, split_registers model.')
+
 # ---------------------------------------------------------------------------------------
 def opts_for(pid, h, tier):
     spec = PROPS[pid]
